@@ -652,7 +652,104 @@ func RunC06(tier string, seed int64) int {
 	obs := &c06obs{}
 	common.QuietFirst(n, 40, runtime.NumCPU(), func(i int) { c06History(ctx, run, obs, i) })
 	common.ParallelFor(ne, 8, func(i int) { c06EndToEnd(ctx, run, obs, i) })
+	nb := 2
+	if tier == "thorough" {
+		nb = 6
+	}
+	common.ParallelFor(nb, nb, func(i int) { c06Backlog(ctx, run, obs, i) })
 	run.Extra("observed", map[string]int64{"histories": obs.histories, "operations_recorded": obs.ops, "per_txid_histories_linearizable": obs.linOK,
 		"porcupine_timeouts": obs.linUnknown, "grants_observed": obs.grants, "txs_delivered": obs.delivered, "bounded_retry_polls": obs.retryPolls, "end_to_end_runs": obs.e2e})
 	return run.Finish()
+}
+
+// c06Backlog: a delivered transaction must reach the processor exactly once also when the
+// processor is far behind: the hand-over channel (capacity 1000) is full and stays full for longer
+// than the manager's own 3-second "waiting" warning while one more transaction is delivered.
+// The verdict does not depend on timing: after the processor is released and the delivering call
+// has returned, the manager is stopped (which closes the channel), Run drains it and returns, and
+// the processed multiset must equal the delivered set.
+func c06Backlog(ctx context.Context, run *common.Run, obs *c06obs, idx int) {
+	rng := common.Rng(run.Seed, int64(690000+idx))
+	tm := bitcoin_reader.NewTxManager(time.Hour)
+	proc := netx.NewRecProcessor()
+	proc.Relevant = func(id Hash) bool { return false }
+	gate := make(chan struct{})
+	proc.OnCall = func(kind string) { <-gate }
+	tm.SetTxProcessor(proc)
+	runDone := make(chan error, 1)
+	go func() { runDone <- tm.Run(ctx) }()
+	interrupt := make(chan interface{})
+	peer := uuid.New()
+	n := 1001 + rng.Intn(3) // one being processed + a full channel (+ up to 2 more that have to wait with the last one)
+	want := map[Hash]int{}
+	var txs []*wire.MsgTx
+	for i := 0; i < n+1; i++ {
+		tx := netx.MkTx(rng, 10)
+		txs = append(txs, tx)
+		want[*tx.TxHash()] = 1
+	}
+	wit := map[string]interface{}{"kind": "tx-delivered-while-processor-backlogged", "seed": run.Seed, "case": idx, "delivered": len(txs), "processor_stalled_ms": 3600}
+	// announced by a second peer as well, so that a lost transaction would have a source to be re-requested from
+	last := txs[len(txs)-1]
+	tm.AddTxID(ctx, uuid.New(), *last.TxHash())
+	tm.AddTxID(ctx, peer, *last.TxHash())
+	var wg sync.WaitGroup
+	returned := make(chan struct{})
+	wg.Add(1)
+	go func() {
+		defer wg.Done()
+		defer close(returned)
+		for _, tx := range txs {
+			if err := tm.AddTx(ctx, interrupt, peer, tx); err != nil {
+				run.Inconclusive("backlog: AddTx: " + err.Error())
+				return
+			}
+			run.Touch()
+		}
+	}()
+	time.Sleep(3600 * time.Millisecond) // the manager's own warning timer is 3 s
+	close(gate)
+	select {
+	case <-returned:
+	case <-time.After(2 * time.Minute):
+		run.Inconclusive("backlog: the delivering calls did not return within two minutes of the processor being released")
+		close(interrupt)
+		wg.Wait()
+		tm.Stop(ctx)
+		<-runDone
+		return
+	}
+	tm.Stop(ctx)
+	select {
+	case err := <-runDone:
+		if err != nil {
+			run.Inconclusive("backlog: Run: " + err.Error())
+			return
+		}
+	case <-time.After(2 * time.Minute):
+		run.Inconclusive("backlog: Run did not return within two minutes of Stop")
+		return
+	}
+	run.Eval(1)
+	atomic.AddInt64(&obs.histories, 1)
+	got := map[Hash]int{}
+	for _, e := range proc.Snapshot() {
+		if e.Kind == "process" {
+			got[e.TxID]++
+		}
+	}
+	atomic.AddInt64(&obs.delivered, int64(len(got)))
+	for id, w := range want {
+		if got[id] != w {
+			which := "earlier"
+			if id == *last.TxHash() {
+				which = "last"
+			}
+			run.Violate(common.Violation{Clause: "delivered-tx-handed-to-processor-exactly-once", Signature: fmt.Sprintf("processed-count/%s/processor-backlogged/%s-delivery", cnt3(got[id], w), which),
+				Detail:  fmt.Sprintf("%d transactions delivered while the processor was stalled for 3.6 s (hand-over channel full): tx %s was handed to the processor %d times", len(txs), id, got[id]),
+				Witness: wit})
+			return
+		}
+	}
+	run.DistinctStr(fmt.Sprintf("backlog/%d", len(txs)))
 }
